@@ -514,6 +514,19 @@ pub struct Doc3 {
     pub a_exact: bool,
 }
 
+impl Drop for Doc3 {
+    fn drop(&mut self) {
+        // the per-thread history of (query, document) pairs borrows documents by address: forget the entries that
+        // point into this one (a Doc3 that lives shorter than the run is created, used and dropped on one thread)
+        let me = &self.v as *const Value;
+        let _ = RECENT_Q.try_with(|r| {
+            if let Ok(mut r) = r.try_borrow_mut() {
+                r.retain(|(_, p)| *p != me);
+            }
+        });
+    }
+}
+
 impl Doc3 {
     pub fn new(v: &Value) -> Doc3 {
         let a = AltA::from_json(v);
